@@ -95,6 +95,13 @@ GraphClauses(U, G) ==
 
 Refutes(U, G) == Unsat(GraphClauses(U, G), {<<G.root, 1>>})
 
+\* a cycle of requires edges (the renderer must cut it)
+RECURSIVE ReqReach(_, _)
+ReqReach(G, R) ==
+  LET R2 == R \cup {G.edges[e].t : e \in {x \in EdgesOf(G, "req") : G.edges[x].s \in R}}
+  IN IF R2 = R THEN R ELSE ReqReach(G, R2)
+HasReqCycle(G) == \E e \in EdgesOf(G, "req") : G.edges[e].s \in ReqReach(G, {G.edges[e].t})
+
 (***************************************************************************)
 (* C04: size of the rendered message.  The renderer unfolds the requires   *)
 (* subgraph as a tree, so the number of lines is bounded by the number of  *)
